@@ -416,6 +416,39 @@ pub fn run(ctx: &Ctx) -> i32 {
             }
         });
         col.layer("REAL values with exact partial sums, AVG / SUM bit for bit (all permutations)", done, complete, json!({"lines": elines, "statements": est}));
+        // REAL keys and arguments one and two units in the last place apart: all 5040 orders
+        {
+            let nlines = ["k=a x=0.5", "k=a x=0.5000000000000002", "k=a x=0.5000000000000001", "k=a x=0.5", "k=b x=0.5000000000000001", "k=b x=5e-324", "k=b x=0.0"];
+            let nst = ["SELECT x, COUNT(*) FROM g GROUP BY x", "SELECT k, MIN(x), MAX(x), COUNT(DISTINCT x) FROM g GROUP BY k", "SELECT x, k, COUNT(*) FROM g GROUP BY x, k"];
+            let total = (perms.len() * nst.len()) as u64;
+            let nbases: Vec<Option<Vec<Vec<RVal>>>> = nst.iter().map(|s| match sut::run_batch(&rt, &sut::parse(s).unwrap(), &nlines) { Outcome::Ok(t) => Some(t.rows), _ => None }).collect();
+            let (done, complete) = par_for_budget(ctx, total, 64, |idx| {
+                let si = idx as usize % nst.len();
+                let perm = &perms[idx as usize / nst.len()];
+                col.eval(1);
+                col.nontrivial(h64(&("real-neighbours", si, perm)));
+                let lines: Vec<&str> = perm.iter().map(|i| nlines[*i]).collect();
+                let got = match sut::run_batch(&rt, &sut::parse(nst[si]).unwrap(), &lines) {
+                    Outcome::Ok(t) => Some(t.rows),
+                    _ => None,
+                };
+                let same = match (&nbases[si], &got) {
+                    (Some(a), Some(b)) => exact(a, b),
+                    _ => false,
+                };
+                if !same {
+                    col.fail(fail(
+                        format!("order-dependent:real-neighbours:{}", si),
+                        format!("`{}` over REAL values one and two units in the last place apart: result for line order {:?} differs from the result for the original order", nst[si], perm),
+                        json!({"law": "real-neighbours", "stmt": si, "statement": nst[si], "perm": perm, "history": []}),
+                        json!(nbases[si].as_ref().map(|r| rows_json(r))),
+                        json!(got.as_ref().map(|r| rows_json(r))),
+                        perm.len() as u64,
+                    ));
+                }
+            });
+            col.layer("REAL values 1-2 ulp apart as keys and arguments (all permutations)", done, complete, json!({"lines": nlines, "statements": nst}));
+        }
         // TEXT arguments that repeat across groups (the same text on neighbouring lines of different groups): all 5040 orders
         let tt = sut::make_tables("CREATE TABLE g(line = '^k=([a-z]+) s=([a-z]*)$', line[1] => k TEXT, line[2] => s TEXT);").unwrap();
         let tlines = ["k=a s=curl", "k=b s=curl", "k=a s=wget", "k=b s=wget", "k=a s=curl", "k=c s=curl", "k=b s="];
